@@ -6,7 +6,7 @@ atom  = ["str", s] | ["int", decimal-string] | ["rat", num-string, den-string] |
 Fields are emitted in ast.iter_fields order.  Non-AST items of a list field (Dict.keys None,
 Global.names strings) become pseudo-nodes of kind "#atom".
 """
-import ast, math
+import ast, sys, math
 
 
 class WFError(Exception):
@@ -90,6 +90,12 @@ def check_wf(t, spans=()):
 def ser_source(data):
     """data: bytes or str -> serialised tree (raises SyntaxError like bandit would)."""
     tree = ast.parse(data)
-    t = ser(tree)
-    check_wf(t)
+    # serialisation recurses once per nesting level: lift the interpreter's limit for its duration only (never while the real code runs)
+    old = sys.getrecursionlimit()
+    sys.setrecursionlimit(max(old, 100000))
+    try:
+        t = ser(tree)
+        check_wf(t)
+    finally:
+        sys.setrecursionlimit(old)
     return t
